@@ -14,7 +14,8 @@ Definition zlen {X} (l : list X) : Z := Z.of_nat (length l).
 (* ---------- deque ---------- *)
 Inductive op : Type :=
 | PushBack (a : A) | PushFront (a : A) | PopFront | PopBack | Front | Back
-| At (i : Z) | SetAt (i : Z) (a : A) | Clear | Rotate (n : Z).
+| At (i : Z) | SetAt (i : Z) (a : A) | Clear | Rotate (n : Z)
+| SetMinCap (e : Z).     (* SetMinCapacity(e): configures the minimum capacity; the contents do not change *)
 
 (* ONone: the call returns nothing; OVal a: it returns a; OPanic: the call is refused by
    an explicit panic; OCrash: a Go run-time error (index out of range) or a loop that
@@ -51,6 +52,7 @@ Definition spec_step (l : list A) (o : op) : list A * out :=
   | SetAt i a => if in_range i l then (upd l (Z.to_nat i) a, ONone) else (l, OPanic)
   | Clear => ([], ONone)
   | Rotate n => (rotl n l, ONone)
+  | SetMinCap _ => (l, ONone)
   end.
 
 Fixpoint spec_run (l : list A) (ops : list op) : list A * list out :=
